@@ -11,14 +11,14 @@ NOTE = ("Sampling, not proof. Trusted base: the harness' reference models and le
 
 CLAIMED = {
  "C01": ("A", "6 C01", "ReliableOrdered exactly-once/in-order/intact under loss, duplication, reordering, delay, partitions, clock skew; bounded delivery after heal. Oracle: prefix check of everything obtained against the ledger of accepted submissions; heal-phase liveness bound computed from the configuration."),
- "C02": ("A", "6 C02", "ReliableUnordered at-most-once/intact/no head-of-line wait/all delivered after heal. Oracle: multiset ledger; 'complete message must come out of the next drain'; heal-phase liveness."),
- "C03": ("A", "6 C03", "Integrity of every obtained message on every channel kind (self-describing payloads), unreliable multiplicity bounded by per-packet delivery counts, no partial/stitched messages; wire content of every emitted packet checked against the ledger."),
- "C06": ("A", "6 C06", "Hostile packets (mutated genuine, forged through the crate's encoder at field boundaries, truncations, junk) injected into live multi-client sessions in arbitrary states: no panic, only that connection drops, accounting within bounds, other connections keep all their oracles."),
+ "C02": ("A", "6 C02", "ReliableUnordered at-most-once/intact/no head-of-line wait/all delivered after heal. Oracle: multiset ledger; 'complete message must come out of the next drain'; heal-phase liveness; no within-budget strict-prompt run loses an unordered channel to a spurious budget disconnect."),
+ "C03": ("A", "6 C03", "Integrity of every obtained message on every channel kind (self-describing payloads), unreliable multiplicity bounded by per-packet delivery counts, no partial/stitched messages; wire content of every emitted packet checked against the ledger; a sliced unreliable id is never used twice; volleys of 40-100 messages."),
+ "C06": ("A", "6 C06", "Hostile packets (mutated genuine, forged through the crate's encoder at field boundaries, consistent forged sliced messages, one id reused for small and sliced messages of changing counts, truncations, junk) injected into live multi-client sessions in arbitrary states: no panic, only that connection drops, accounting within bounds, other connections keep all their oracles."),
  "C08": ("A", "6 C08", "Sender releases a reliable message only after every needed packet was handed to the peer; every emitted ack only names sequences really received (ledger of deliveries vs. unacked set via hook)."),
  "C09": ("A", "6 C09", "Exact send-side accounting against the ledger after every op, receive accounting bounds, budgets whole and receive memory zero at quiescence after heal, no spurious budget disconnect for strict-prompt within-budget runs."),
  "C11": ("A", "6 C11", "Multi-client runs with unicast/broadcast/broadcast_except, independent fault schedules, a hostile and/or absent client: recipients exact (payloads name the connection), healthy clients meet their liveness bound."),
- "C12": ("A", "6 C12", "Random public-API histories (add/remove/disconnect/local clients/status setters/transport disconnect) with monitors: finality and first reason of every connection object, dead connections emit/accept/yield nothing, strict event alternation and event reason = first reason."),
- "C13": ("A", "6 C13", "Every packet from get_packets_to_send <= 1300 bytes and serialization never fails, with counter teleport across varint widths and burst-reverse-sparse arrivals that grow the ack list."),
+ "C12": ("A", "6 C12", "Random public-API histories (add/remove/disconnect/local clients/status setters/transport disconnect) with monitors: finality and first reason of every connection object, dead connections emit/accept/yield nothing, strict event alternation and event reason = first reason; reference event queue compared at every poll (polled after every call or once per tick); every cause of disconnection takes effect in every live state."),
+ "C13": ("A", "6 C13", "Every packet from get_packets_to_send <= 1300 bytes and serialization never fails, with counter teleport across varint widths and burst-reverse-sparse arrivals that grow the ack list; no ack packet carries more than 64 ranges."),
  "C14": ("A", "6 C14", "Per flush, decoded with the crate's codec: payload bytes <= budget; no eligible item of an earlier channel unsent while later channels were served with enough bytes; unreliable messages whole-or-nothing in exactly one flush."),
  "C15": ("A", "6 C15", "Per item transmission ledger on the sender clock: never earlier than resend_time, always at the first flush where the timer elapsed and budget is left, never after the reference model processed an ack for it (3 s horizon modelled); acknowledged within a bound after heal."),
  "C16": ("A", "6 C16", "PARTIAL CLAIM: the ack clause (ack packet == recorded set == reference model of the pending set, newest 64 ranges, well-formed) is decided by simulation; round-trip clauses are monitored on all simulated traffic and on decodable hostile strings only. The all-inputs clauses are not decided by this family (see DESIGN.md C16)."),
